@@ -189,6 +189,33 @@ def dhw_indicator_lookups(ctx, rep, m, A, data, where):
                                  % (key_name(k), [tm.show(w, 2)[:40] for w in witness]))
             else:
                 rep.underivable(key, "need => kept is decidable on the witness", construct=where, why=tm.show(kept, 3)[:200])
+    # the converse: a lookup that also happens for a building that does NOT use the factor's carrier (whose factors the
+    # simplification has removed) turns a successful evaluation into an error
+    foreign_done = set()
+    for (k, _gid), (k, gates) in sorted(found.items(), key=lambda kv: key_name(kv[0][0])):
+        cname = tm.variant_name("Carrier", k[0])
+        others = [c for c in ("BIOMASA", "BIOMASADENSIFICADA", "GASNATURAL", "ELECTRICIDAD") if c != cname]
+        scen = []
+        for o in others:
+            scen.append(([used(o, "ACS")], o))
+            if o != "GASNATURAL" and cname != "GASNATURAL":
+                scen.append(([used(o, "ACS"), used("GASNATURAL", "ACS"), out("ACS")], o + "+GASNATURAL+output"))
+        for witness, tag in scen:
+            if (k, tag) in foreign_done or not gates:
+                continue
+            g = tm.and_(*[eval_scenario(x, edata, witness) for x in gates])
+            if g is tm.FALSE:
+                continue              # the lookup is excluded for this building
+            p, _v = m[k]
+            kept = tm.subst(eval_under(p, data, witness), {A.p0[k]: tm.TRUE})
+            foreign_done.add((k, tag))
+            key = "C08/S2/dhw-foreign/%s/%s" % (key_name(k), tag)
+            if kept is tm.FALSE:
+                rep.violated(key, "the DHW indicator looks up only factors the simplification keeps for that building",
+                             construct=where, why="%s is looked up for a building with exactly %s, for which it has been removed"
+                             % (key_name(k), [tm.show(w, 2)[:40] for w in witness]))
+            else:
+                rep.discharged(key, "%s is looked up for a building served by %s and is kept for it" % (key_name(k), tag), nontrivial=False)
     return n
 
 
